@@ -623,6 +623,14 @@ func (c *Core) Finish(s *Sim) {
 	}
 }
 
+func firstWords(s string) string {
+	f := strings.Fields(s)
+	if len(f) > 6 {
+		f = f[:6]
+	}
+	return strings.Join(f, " ")
+}
+
 func keys(m map[string]bool) []string {
 	var k []string
 	for x := range m {
@@ -761,6 +769,21 @@ func (c *Core) finishClient(s *Sim, cl *Client) {
 			if gi < len(q.got) {
 				f, det := exp[wi].Match(q.got[gi])
 				if f == "" {
+					// second, independent decoder of the controls: go-ldap (C14)
+					if exp[wi].HasCtrls && len(exp[wi].Controls) > 0 && !cfg.Lean {
+						if recs, ok, why := GoLdapControls(q.got[gi].Bytes); !ok {
+							s.Probe("C14-go-ldap-could-not-decode: " + firstWords(why))
+						} else if len(recs) != len(exp[wi].Controls) {
+							s.Violate("C14", "response", "go-ldap control-count", fmt.Sprintf("m=%d: go-ldap decodes %d controls, %d were set", q.Rec.MsgID, len(recs), len(exp[wi].Controls)))
+						} else {
+							s.Probe("C14-response-controls-decoded-by-go-ldap")
+							for i := range recs {
+								if d := CtrlDiff(exp[wi].Controls[i], recs[i]); d != "" {
+									s.Violate("C14", "response", "go-ldap control "+ctrlClass(exp[wi].Controls[i]), fmt.Sprintf("m=%d: as decoded by go-ldap: [%d] %s", q.Rec.MsgID, i, d))
+								}
+							}
+						}
+					}
 					gi++
 					continue
 				}
